@@ -136,3 +136,19 @@ check(
     "DESIGN.md section 3 C13",
     "unitlab",
 )
+
+ENGINES[0]["serves_properties"].append("C18")
+check(
+    "C18",
+    "exploration",
+    "Hypothesis-generated smooth arrays on grids of any size/aspect, both interpolation methods: node reproduction, "
+    "differential comparison of psi and its first/second derivatives with the harness' own spline / cosine-series "
+    "evaluation, Richardson-controlled finite-difference consistency of every exposed derived field (Bp_R, Bp_Z, f_R, f_Z, "
+    "d2psi*, dBR*, dBZ*, dBzeta*, dB2*, dB*), div B = 0, scalar/ndarray/MultiLocationArray argument equivalence, and "
+    "convergence of both methods to the analytic function under resolution doubling.",
+    "Trusted base: vf/refeq.py evaluation; finite-difference acceptance band 4|FD_h-FD_h/2| + stated floors; evaluation "
+    "points keep spline knots out of the stencils.",
+    "Hypothesis PBT: differential against reference implementation + metamorphic derivative-consistency relations",
+    "DESIGN.md section 3 C18",
+    "unitlab",
+)
